@@ -332,6 +332,12 @@ func Drive(chk *Check, o DriveOpts) int {
 	_ = os.MkdirAll(filepath.Join(o.Root, "replays"), 0o755)
 	for _, key := range order {
 		a := byKey[key]
+		if strings.HasPrefix(key, "harness-setup") {
+			// the harness could not build its scenario (resource exhaustion, environment): never a verdict on the code
+			inconclusive = append(inconclusive, fmt.Sprintf("harness-setup-failed-x%d", a.count))
+			fmt.Printf("HARNESS-SETUP property=%s occurrences=%d %s\n", chk.ID, a.count, oneLine(a.first.Msg))
+			continue
+		}
 		if key == "harness-panic" {
 			inconclusive = append(inconclusive, "harness-panic")
 			fmt.Printf("HARNESS-PANIC property=%s case=%d %s\n%s\n", chk.ID, a.first.Case, a.first.Msg, a.first.Stack)
